@@ -121,17 +121,51 @@ def vkey(x):
 
 # ------------------------------------------------------------------ world
 
+def _counting(base):
+    """Subclass of a repo scheduler that logs every invoked action (through the public
+    schedule_absolute seam only); harness actions are tagged so that library-internal
+    timers can be told apart."""
+
+    class Counting(base):
+        __test__ = False
+
+        def __init__(self, *a):
+            super().__init__(*a)
+            self.lib_actions = []  # virtual time of every invoked library-scheduled action
+            self.world = None
+
+        def schedule_absolute(self, duetime, action, state=None):
+            if getattr(action, "_harness", False):
+                return super().schedule_absolute(duetime, action, state)
+            w = self.world
+
+            def counted(sc, st=None):
+                if w is not None:
+                    self.lib_actions.append(w.now())
+                return action(sc, st)
+
+            return super().schedule_absolute(duetime, counted, state)
+
+    return Counting
+
+
+CountingTest = _counting(TestScheduler)
+CountingVTS = _counting(VirtualTimeScheduler)
+CountingHistorical = _counting(HistoricalScheduler)
+
+
 class World:
     def __init__(self, clock="test"):
         self.clock_kind = clock
         if clock == "test":
-            self.s = TestScheduler()
+            self.s = CountingTest()
         elif clock == "vts":
-            self.s = VirtualTimeScheduler(0.0)
+            self.s = CountingVTS(0.0)
         elif clock == "historical":
-            self.s = HistoricalScheduler()
+            self.s = CountingHistorical()
         else:
             raise ValueError(clock)
+        self.s.world = self
         self.seq = 0
         self.sources = {}
         self.calls = []  # (seq, t, site)
@@ -180,6 +214,7 @@ class World:
             fn()
             return Disposable()
 
+        action._harness = True
         return self.s.schedule_absolute(self.abs(t), action)
 
     def _arm(self):
@@ -375,6 +410,40 @@ class SimSource(Observable):
         return Disposable(dispose_cold)
 
 
+class Tap(Observable):
+    """Pass-through probe inserted between two operators by the harness."""
+
+    def __init__(self, w, inner, log):
+        super().__init__()
+        self.w, self.inner, self.log, self.n = w, inner, log, 0
+
+    def _subscribe_core(self, observer, scheduler=None):
+        w, log = self.w, self.log
+        idx = self.n
+        self.n += 1
+        log.append((w.tick(), w.now(), "S", None, idx))
+
+        def on_next(v):
+            log.append((w.tick(), w.now(), "N", v, idx))
+            observer.on_next(v)
+
+        def on_error(e):
+            log.append((w.tick(), w.now(), "E", e, idx))
+            observer.on_error(e)
+
+        def on_completed():
+            log.append((w.tick(), w.now(), "C", None, idx))
+            observer.on_completed()
+
+        sub = self.inner.subscribe(on_next, on_error, on_completed, scheduler=scheduler)
+
+        def dispose():
+            log.append((w.tick(), w.now(), "D", None, idx))
+            sub.dispose()
+
+        return Disposable(dispose)
+
+
 def make_sources(w, specs):
     return {s["id"]: SimSource(w, s["id"], s["kind"], s["events"], s.get("rogue", False)) for s in specs}
 
@@ -415,8 +484,14 @@ class Recorder:
 
     _dispose_pending = False
 
+    dispose_children = False
+
     def dispose(self):
         w = self.w
+        if self.dispose_children:
+            for c in list(self.all_recorders())[1:]:
+                if c.disp_ret_seq is None and c.terminal() is None and c.sub is not None:
+                    c.dispose()
         if self.sub is None:
             self._dispose_pending = True  # asked from inside a notification delivered during subscribe()
             return
@@ -445,14 +520,24 @@ class Recorder:
             child.subscribe(v)
         self._react()
 
+    drop_children_on_terminal = False
+
+    def _drop_children(self):
+        if self.drop_children_on_terminal:
+            for c in list(self.all_recorders())[1:]:
+                if c.disp_ret_seq is None and c.terminal() is None and c.sub is not None:
+                    c.dispose()
+
     def on_error(self, e):
         w = self.w
         self.events.append((w.tick(), w.now(), "E", e))
+        self._drop_children()
         self._react()
 
     def on_completed(self):
         w = self.w
         self.events.append((w.tick(), w.now(), "C", None))
+        self._drop_children()
         self._react()
 
     # views
